@@ -72,4 +72,25 @@ theorem delta_undelta (l : List Int) : delta (undelta l) = l := by
   unfold undelta delta
   rw [undelta_eq_sums, delta_eq_diffs, diffs_sums]
 
+theorem mapM_mem {α β} (f : α → Option β) (l : List α) (r : List β) (h : l.mapM f = some r) :
+    ∀ y ∈ r, ∃ x ∈ l, f x = some y := by
+  induction l generalizing r with
+  | nil => simp [List.mapM_nil] at h; subst h; intro y hy; cases hy
+  | cons a rest ih =>
+    rw [List.mapM_cons] at h
+    cases ha : f a with
+    | none => simp [ha] at h
+    | some b =>
+      cases hr : rest.mapM f with
+      | none => simp [ha, hr] at h
+      | some rs =>
+        simp [ha, hr] at h
+        subst h
+        intro y hy
+        rcases List.mem_cons.mp hy with e | e
+        · exact ⟨a, by simp, by rw [ha, e]⟩
+        · obtain ⟨x, hx, hfx⟩ := ih rs hr y e
+          exact ⟨x, by simp [hx], hfx⟩
+
+
 end OsmVerif.Model.Pbf
